@@ -10,7 +10,7 @@ import (
 	"verifharness/gal"
 )
 
-const header = "From CSS Require Import Lib.Base Lib.Cases Model.Comb Model.CombHeap Model.CombCases."
+const header = "From CSS Require Import Lib.Base Lib.Cases Model.Comb Model.CombHeap Model.CombConc Model.CombCases."
 
 func comb64(c bruteforcer.UniqueUnorderedCombination) []int64 {
 	r := make([]int64, len(c))
@@ -95,8 +95,16 @@ func main() {
 	}
 
 	// ---- random Next / Rank / Seek / Amount ----
+	// (the cases of the upper half of the ID range cost the model about a second each: they are
+	// spread evenly over the run, hence over the shards)
+	highList = highPairs(c)
+	nextHigh := 0
 	n := c.Scale(600, 6000)
 	for i := 0; i < n; i++ {
+		if nextHigh < len(highList) && i*len(highList) >= nextHigh*n {
+			highOne(c, highList[nextHigh], nextHigh)
+			nextHigh++
+		}
 		m, k := randMK(c)
 		s := randComb(c, m, k)
 		next1(c, m, s)
@@ -134,17 +142,29 @@ func main() {
 		amt := new(big.Int).Binomial(m+1, int64(k))
 		var id uint64
 		if i%3 != 0 && amt.Sign() > 0 {
-			id = uint64(c.Rng.Int63n(int64(amt.Uint64())))
+			id = randID(c, amt)
 		}
 		seekUsed(c, m, randComb(c, m, k), c.Rng.Intn(4), id)
 	}
 	// k = 0: the only combination is the empty one, with ID 0
 	seekID(c, 5, 0, 0)
 	seekID(c, -1, 0, 0)
+	for ; nextHigh < len(highList); nextHigh++ {
+		highOne(c, highList[nextHigh], nextHigh)
+	}
 
 	// ---- programs: results kept across later calls, several iterators, copies ----
 	for i, np := 0, c.Scale(500, 5000); i < np; i++ {
-		program(c, i%2)
+		program(c, i%2, progMK)
+		if i%concEvery == 3 { // several goroutines at once, one iterator each (conc.go)
+			concurrent(c, 2+c.Rng.Intn(7))
+		}
+		if i%40 == 7 && len(highList) > 0 { // iterators whose IDs reach into the upper half of uint64
+			program(c, (i/40)%2, func(c *gal.Ctx) (int64, int) {
+				h := highList[c.Rng.Intn(len(highList))]
+				return h.m, h.k
+			})
+		}
 	}
 
 	// ---- flips ----
@@ -154,7 +174,10 @@ func main() {
 	}
 
 	c.Finish("exhaustive walks for 0<=k<=6, k-1<=m<=" + fmt.Sprint(maxM) +
-		" (every Next/GetCombination/GetCombinationID/AmountOfCombinations, digested), plus random (m<=4000,k<=12,C(m+1,k)<2^63) Next/Rank/Seek/Amount, random flips (strings up to 4001 bits), and programs of 6..35 calls (New/Next/SetCombinationID/GetCombination/GetCombinationUnsafe/Copy/ID/Amount on several iterators, caller writes into returned slices) in which every returned combination is kept and re-read after every later call; " +
+		" (every Next/GetCombination/GetCombinationID/AmountOfCombinations, digested), plus random (m<=4000,k<=12,C(m+1,k)<2^64) Next/Rank/Seek/Amount; " +
+		"the upper half of the uint64 ID range systematically: for k=7..12 and one of 14,16,20,25,33 the m around C(m+1,k)=2^63 and the last m with C(m+1,k)<2^64 (amount, seeks to 0, C-1, 2^63-1, 2^63, 2^63+1 and random IDs with bit 63 set, ID and successor of the combinations with those IDs, stepping across ID 2^63 and up to exhaustion); " +
+		"random flips (strings up to 4001 bits); programs of 6..35 calls (New/Next/SetCombinationID/GetCombination/GetCombinationUnsafe/Copy/ID/Amount on several iterators, caller writes into returned slices) in which every returned combination is kept and re-read after every later call; " +
+		"and concurrent cases: 2..8 goroutines released together, each calling an iterator of its own with its own (m,k), mostly outside of the 1000x10 lookup table (m+1>1000 or k>10), every returned value judged afterwards; " +
 		"a case is non-trivial when k>=1 (walks: >=2 combinations); distinct = distinct Gallina literal")
 }
 
@@ -176,7 +199,7 @@ func randMK(c *gal.Ctx) (int64, int) {
 			continue
 		}
 		amt := new(big.Int).Binomial(m+1, int64(k))
-		if amt.BitLen() > 62 {
+		if amt.BitLen() > 64 { // the amount must be representable as uint64; the upper half [2^63, 2^64) is in
 			continue
 		}
 		return m, k
@@ -281,6 +304,191 @@ func walk(c *gal.Ctx, m int64, k int) {
 
 var stepsTotal uint64
 
+const concEvery = 12
+
+// ---------- the upper half of the ID range ----------
+//
+// IDs and amounts are uint64 and the property is stated for every (m, k) whose number of
+// combinations is representable, so amounts in [2^63, 2^64) and IDs with the top bit set are
+// ordinary inputs.  For a range of k the m values around the two thresholds are run
+// systematically: the last m with C(m+1,k) < 2^63, the first with C(m+1,k) >= 2^63, the last
+// with C(m+1,k) < 2^64, and random ones in between (from 2^62 on).
+
+type highMK struct {
+	m        int64
+	k        int
+	lo, hi   int64 // C(m+1,k) >= 2^62 from lo on, < 2^64 up to hi
+	mid      int64 // first m with C(m+1,k) >= 2^63
+	amt      *big.Int
+	describe string
+}
+
+func highRange(k int) (lo, mid, hi int64) {
+	lo, mid, hi = -1, -1, -1
+	for m := int64(k); m <= 4000; m++ {
+		bl := new(big.Int).Binomial(m+1, int64(k)).BitLen()
+		if 2*int64(k) > m+1 {
+			continue // stay on the rising side: C(m+1,k) grows with m there
+		}
+		if bl >= 63 && lo < 0 {
+			lo = m
+		}
+		if bl >= 64 && mid < 0 {
+			mid = m
+		}
+		if bl > 64 {
+			break
+		}
+		hi = m
+	}
+	return
+}
+
+func highPairs(c *gal.Ctx) []highMK {
+	var r []highMK
+	ks := []int{7, 8, 9, 10, 11, 12}
+	extra := []int{14, 16, 20, 25, 33}
+	ks = append(ks, extra[c.Rng.Intn(len(extra))])
+	if c.Thorough() {
+		ks = append([]int{7, 8, 9, 10, 11, 12}, extra...)
+	}
+	for _, k := range ks {
+		lo, mid, hi := highRange(k)
+		if lo < 0 || mid < 0 || hi < mid {
+			continue
+		}
+		ms := map[int64]bool{mid - 1: true, mid: true, hi: true}
+		for n := c.Scale(1, 4); n > 0; n-- {
+			ms[lo+c.Rng.Int63n(hi-lo+1)] = true
+		}
+		var sorted []int64
+		for m := range ms {
+			sorted = append(sorted, m)
+		}
+		sort.Slice(sorted, func(i, j int) bool { return sorted[i] < sorted[j] })
+		for _, m := range sorted {
+			if m < lo {
+				continue
+			}
+			r = append(r, highMK{m: m, k: k, lo: lo, mid: mid, hi: hi, amt: new(big.Int).Binomial(m+1, int64(k))})
+		}
+	}
+	return r
+}
+
+var highList []highMK
+
+// one (m, k) of the upper half; j rotates which boundary IDs are sought
+func highOne(c *gal.Ctx, h highMK, j int) {
+	m, k, amt := h.m, h.k, h.amt
+	a := amt.Uint64()
+	amount1(c, m, k)
+	ids := []uint64{0, a - 1, a - 2, a / 2, randID(c, amt), randID(c, amt)}
+	var upper []uint64
+	if amt.Cmp(two63) > 0 {
+		top := uint64(1) << 63
+		upper = []uint64{top, top - 1, top + new(big.Int).Rand(c.Rng, new(big.Int).Sub(amt, two63)).Uint64()}
+		if top+1 < a {
+			upper = append(upper, top+1)
+		}
+		ids = append(ids, upper...)
+	}
+	// the combination with a given ID, built by the oracle: its reported ID and its successor (cheap for the model)
+	for _, id := range ids {
+		if s := unrankC(m, k, id); s != nil {
+			rank1(c, m, s)
+			next1(c, m, s)
+		}
+	}
+	s := randComb(c, m, k)
+	rank1(c, m, s)
+	next1(c, m, s)
+	// seeks (about a second of coqc each)
+	seekID(c, m, k, ids[j%len(ids)])
+	if len(upper) > 0 {
+		seekID(c, m, k, upper[(j/2)%len(upper)])
+	}
+	switch {
+	case j%4 == 3:
+		seekUsed(c, m, randComb(c, m, k), c.Rng.Intn(4), randID(c, amt))
+	case len(upper) > 0 && j%2 == 0:
+		// stepping across ID 2^63
+		tailWalk(c, m, k, uint64(1)<<63-uint64(1+c.Rng.Intn(3)), 6)
+	default:
+		// the last combinations, visited by stepping: IDs amt-n .. amt-1, then exhaustion
+		tailWalk(c, m, k, a-uint64(2+c.Rng.Intn(4)), 8)
+	}
+}
+
+// seek to ID start, then (GetCombinationID, GetCombination, Next) up to `steps` times or until
+// exhaustion; the combinations are kept and read after the last call.  Oracle from the property
+// text: seeking to ID i yields the i-th combination, stepping visits the following ones in
+// lexicographic order, each reports its own index as ID, and exhaustion is reported after the
+// last one (ID C(m+1,k)-1) and not before.
+func tailWalk(c *gal.Ctx, m int64, k int, start uint64, steps int) {
+	amt := new(big.Int).Binomial(m+1, int64(k))
+	var descr, ops, evs, hints []string
+	var kept []bruteforcer.UniqueUnorderedCombination
+	var it *bruteforcer.UniqueUnorderedCombinationIterator
+	bad := ""
+	fail := func(format string, a ...interface{}) {
+		if bad == "" {
+			bad = fmt.Sprintf(format, a...)
+		}
+	}
+	add := func(op, ev, d string) { ops, evs, descr = append(ops, op), append(evs, ev), append(descr, d) }
+	panicked, _ := gal.Recover(func() {
+		it = bruteforcer.NewUniqueUnorderedCombinationIterator(uint64(k), m)
+		add(fmt.Sprintf("ONew %s %s", gal.Nat(k), gal.Z(m)), "ENone", fmt.Sprintf("it0 := New(k=%d, m=%d)", k, m))
+		it.SetCombinationID(start)
+		add(fmt.Sprintf("OSeek 0%%nat %s", gal.U(start)), "ENone", fmt.Sprintf("it0.SetCombinationID(%d)", start))
+		hints = append(hints, gal.ZList64(comb64(it.GetCombinationUnsafe()))) // evaluation hint for the model (see Model/CombConc.v)
+		exp := unrankC(m, k, start)
+		for i := 0; i < steps; i++ {
+			want := start + uint64(i)
+			id := it.GetCombinationID()
+			add("OID 0%nat", "(EZ "+gal.U(id)+")", "it0.GetCombinationID()")
+			if id != want {
+				fail("combination #%d (%d steps after SetCombinationID(%d)) reports ID %d", want, i, start, id)
+			}
+			r := it.GetCombination()
+			kept = append(kept, r)
+			add("OGet 0%nat", "ENone", fmt.Sprintf("r%d := it0.GetCombination()", len(kept)-1))
+			if fmt.Sprint(comb64(r)) != fmt.Sprint(exp) {
+				fail("%d steps after SetCombinationID(%d) the iterator stands at %v, combination #%d is %v", i, start, comb64(r), want, exp)
+			}
+			more := it.Next()
+			add("ONext 0%nat", "(EBool "+gal.Bool(more)+")", "it0.Next()")
+			last := new(big.Int).SetUint64(want + 1).Cmp(amt) == 0
+			if more == last {
+				fail("Next() at combination #%d of %s returned %v", want, amt, more)
+			}
+			if !more {
+				break
+			}
+			exp, _ = oracleNext(m, exp)
+		}
+	})
+	if panicked {
+		fail("panic after %d calls", len(ops))
+	}
+	var finalRes []string
+	for _, r := range kept {
+		finalRes = append(finalRes, gal.ZList64(comb64(r)))
+	}
+	obs := "OPanic"
+	if !panicked {
+		obs = "(OOk " + gal.Pair(gal.Pair(gal.List(evs), gal.List(finalRes)), gal.List([]string{gal.ZList64(comb64(it.GetCombinationUnsafe()))})) + ")"
+	}
+	input := map[string]interface{}{"op": "seek_then_walk", "m": m, "k": k, "start_id": start, "calls": descr}
+	idx := c.Add("seek_walk", fmt.Sprintf("CProg %s %s %s", gal.List(ops), gal.List(hints), obs), input, k >= 1)
+	if bad != "" {
+		c.OracleFail(idx, fmt.Sprintf("seek to ID %d of the %s %d-subsets of {0..%d}, then stepping: %s", start, amt, k, m, bad), "pkg/bruteforcer/indexes.go:setCombinationID/getCombinationID/next", input)
+	} else {
+		c.OracleOK()
+	}
+}
+
 func next1(c *gal.Ctx, m int64, s []int64) {
 	it := iterAt(m, s)
 	more := it.Next()
@@ -322,17 +530,45 @@ func amount1(c *gal.Ctx, m int64, k int) {
 }
 
 func seek1(c *gal.Ctx, m int64, k int) {
-	amt := new(big.Int).Binomial(m+1, int64(k))
-	var id uint64
-	switch c.Rng.Intn(6) {
-	case 0:
-		id = 0
-	case 1:
-		id = amt.Uint64() - 1
-	default:
-		id = uint64(c.Rng.Int63n(int64(amt.Uint64())))
+	seekID(c, m, k, randID(c, new(big.Int).Binomial(m+1, int64(k))))
+}
+
+var two63 = new(big.Int).Lsh(big.NewInt(1), 63)
+
+// an ID in [0, amt), for any 0 < amt < 2^64 (IDs are uint64: the whole range counts, also the
+// half with the top bit set): the ends, the neighbourhood of 2^63, the upper half, or uniform
+func randID(c *gal.Ctx, amt *big.Int) uint64 {
+	if amt.Sign() <= 0 || !amt.IsUint64() {
+		return 0
 	}
-	seekID(c, m, k, id)
+	a := amt.Uint64()
+	high := amt.Cmp(two63) > 0
+	switch c.Rng.Intn(8) {
+	case 0:
+		return 0
+	case 1:
+		return a - 1
+	case 2:
+		if high {
+			if id := uint64(1)<<63 - 2 + uint64(c.Rng.Intn(5)); id < a {
+				return id
+			}
+		}
+	case 3:
+		if high { // uniform in [2^63, amt)
+			return uint64(1)<<63 + new(big.Int).Rand(c.Rng, new(big.Int).Sub(amt, two63)).Uint64()
+		}
+	case 4:
+		return a - 1 - uint64(c.Rng.Int63n(int64(minU(a, 1000))))
+	}
+	return new(big.Int).Rand(c.Rng, amt).Uint64()
+}
+
+func minU(a, b uint64) uint64 {
+	if a < b {
+		return a
+	}
+	return b
 }
 
 func seekID(c *gal.Ctx, m int64, k int, id uint64) {
@@ -556,11 +792,11 @@ func progMK(c *gal.Ctx) (int64, int) {
 	}
 }
 
-func program(c *gal.Ctx, style int) {
+func program(c *gal.Ctx, style int, pickMK func(*gal.Ctx) (int64, int)) {
 	nops := 6 + c.Rng.Intn(30)
 	var its []*pIter
 	var res []*pRes
-	var ops, evs, descr []string
+	var ops, evs, descr, hints []string
 	bad := ""
 	site := "pkg/bruteforcer/indexes.go:UniqueUnorderedCombinationIterator"
 	fail := func(format string, a ...interface{}) {
@@ -591,7 +827,7 @@ func program(c *gal.Ctx, style int) {
 		isPanic, _ := gal.Recover(func() {
 			switch {
 			case kind < 6 || (kind < 10 && len(its) < 2): // New
-				m, k := progMK(c)
+				m, k := pickMK(c)
 				p := &pIter{it: bruteforcer.NewUniqueUnorderedCombinationIterator(uint64(k), m), m: m, k: k, born: n}
 				for x := 0; x < k; x++ {
 					p.exp = append(p.exp, int64(x))
@@ -614,19 +850,10 @@ func program(c *gal.Ctx, style int) {
 				}
 			case kind < 48: // Seek
 				amt := new(big.Int).Binomial(pi.m+1, int64(pi.k))
-				id := uint64(0)
-				if amt.Sign() > 0 {
-					switch c.Rng.Intn(5) {
-					case 0:
-						id = 0
-					case 1:
-						id = amt.Uint64() - 1
-					default:
-						id = uint64(c.Rng.Int63n(int64(amt.Uint64())))
-					}
-				}
+				id := randID(c, amt)
 				pi.it.SetCombinationID(id)
 				op, ev, d = fmt.Sprintf("OSeek %s %s", gal.Nat(i), gal.U(id)), "ENone", fmt.Sprintf("it%d.SetCombinationID(%d)", i, id)
+				hints = append(hints, gal.ZList64(peek(pi))) // evaluation hint for the model (see Model/CombConc.v)
 				pi.exp = unrankC(pi.m, pi.k, id)
 			case kind < 72: // GetCombination: kept
 				r := &pRes{s: pi.it.GetCombination(), live: -1, born: n, from: i}
@@ -748,7 +975,7 @@ func program(c *gal.Ctx, style int) {
 			nontriv = true
 		}
 	}
-	idx := c.Add("program", fmt.Sprintf("CProg %s %s", gal.List(ops), obs), input, nontriv)
+	idx := c.Add("program", fmt.Sprintf("CProg %s %s %s", gal.List(ops), gal.List(hints), obs), input, nontriv)
 	if bad != "" {
 		c.OracleFail(idx, "kept combinations / independent iterators: "+bad+"; calls: "+fmt.Sprint(descr), site, input)
 	} else {
